@@ -175,6 +175,58 @@ fn find_sub(hay: &[u8], needle: &[u8]) -> bool {
     needle.len() <= hay.len() && hay.windows(needle.len()).any(|w| w == needle)
 }
 
+fn collect_protected(db: &Database, out: &mut Vec<Vec<u8>>) {
+    fn val(v: &Value, out: &mut Vec<Vec<u8>>) {
+        if let Value::Protected(p) = v {
+            out.push(p.unsecure().to_vec());
+        }
+    }
+    fn cd(c: &CustomData, out: &mut Vec<Vec<u8>>) {
+        for i in c.items.values() {
+            if let Some(v) = &i.value {
+                val(v, out);
+            }
+        }
+    }
+    fn entry(e: &Entry, out: &mut Vec<Vec<u8>>) {
+        for v in e.fields.values() {
+            val(v, out);
+        }
+        cd(&e.custom_data, out);
+        if let Some(h) = &e.history {
+            for he in h.get_entries() {
+                entry(he, out);
+            }
+        }
+    }
+    fn group(g: &Group, out: &mut Vec<Vec<u8>>) {
+        cd(&g.custom_data, out);
+        for c in &g.children {
+            match c {
+                Node::Group(x) => group(x, out),
+                Node::Entry(e) => entry(e, out),
+            }
+        }
+    }
+    cd(&db.meta.custom_data, out);
+    group(&db.root, out);
+}
+
+struct ChunkSink {
+    buf: Vec<u8>,
+    cap: usize,
+}
+impl std::io::Write for ChunkSink {
+    fn write(&mut self, b: &[u8]) -> std::io::Result<usize> {
+        let n = b.len().min(self.cap);
+        self.buf.extend_from_slice(&b[..n]);
+        Ok(n)
+    }
+    fn flush(&mut self) -> std::io::Result<()> {
+        Ok(())
+    }
+}
+
 pub fn run(ctx: &mut Ctx, hostile: bool) {
     let count = if hostile { ctx.count(800, 20000) } else { ctx.count(300, 5000) };
     let mut seen_random: HashSet<Vec<u8>> = HashSet::new();
@@ -190,8 +242,11 @@ pub fn run(ctx: &mut Ctx, hostile: bool) {
         let key = make_key(&creds.pw, &creds.kf);
         let before = dump::database(&db);
         let now = Times::now().and_utc().timestamp();
-        let mut buf = Vec::new();
-        let saved = catch(|| db.save(&mut buf, key.clone()));
+        // the sink accepts at most `cap` bytes per call (a pipe, a socket, a compressing adaptor): a conforming `Write`
+        let cap = *rng.pick(&[usize::MAX, usize::MAX, 1usize, 7, 100, 4096]);
+        let mut sink = ChunkSink { buf: Vec::new(), cap };
+        let saved = catch(|| db.save(&mut sink, key.clone()));
+        let buf = sink.buf;
         let unchanged = dump::database(&db) == before;
         let save_s = match &saved {
             Ok(Ok(())) => "ok".to_string(),
@@ -314,6 +369,23 @@ pub fn run(ctx: &mut Ctx, hostile: bool) {
                             repeated += 1;
                             if cts.len() < occurrences {
                                 prot_leaks.push(format!("equal-plaintexts-equal-ciphertexts:{}", String::from_utf8_lossy(pt)));
+                            }
+                        }
+                    }
+                    // the database's own protected values: each must be written protected (as many protected values in the
+                    // output as in the database) and none may appear in clear in the payload
+                    let mut db_prot: Vec<Vec<u8>> = Vec::new();
+                    collect_protected(&db, &mut db_prot);
+                    if db_prot.len() != prot.len() {
+                        prot_leaks.push(format!("protected-count:{} protected values in the database, {} written protected", db_prot.len(), prot.len()));
+                    }
+                    if s.inner != Inner::Plain {
+                        for pt in &db_prot {
+                            if pt.len() >= 4 && !strings_unprotected_contains(&before, pt) {
+                                let esc = String::from_utf8_lossy(pt).replace('&', "&amp;").replace('<', "&lt;").replace('>', "&gt;");
+                                if find_sub(&s.xml, pt) || find_sub(&s.xml, esc.as_bytes()) {
+                                    prot_leaks.push(format!("database-protected-value-in-clear:{}", String::from_utf8_lossy(pt)));
+                                }
                             }
                         }
                     }
